@@ -160,3 +160,8 @@ Definition ortho_pre_2d (j : nat) (d : list R) (G : matrix) : Prop :=
 Definition inner_0d (g : R) (x y : list R) : R := dot x (vscale g y).
 Definition inner_1d (G x y : list R) : R := dot x (vmul G y).
 Definition inner_2d (G : matrix) (x y : list R) : R := dot x (matvec G y).
+
+(** a full metric is positive definite on the vectors of dimension n (the code does not check it: "no check on positivity
+    of matrix to remain light"); hypothesis of the statements about every non-zero direction *)
+Definition pos_def_2d (G : matrix) (n : nat) : Prop :=
+  forall x : list R, length x = n -> (exists i, nth i x 0 <> 0) -> 0 < inner_2d G x x.
